@@ -2,10 +2,16 @@
 (* Validates ndjson traces recorded from the real websocket.Stream against   *)
 (* WsSessionMon.  Scenarios are concatenated; each starts with a "New"       *)
 (* event.  When the monitor rejects an event the rule key is printed and the *)
-(* rest of that scenario is skipped, so every scenario is examined.          *)
+(* rest of that scenario is skipped, so every scenario is examined.  The     *)
+(* properties in focus come from the environment (FOCUS_C08 / FOCUS_C17 =    *)
+(* "1"); the first rule of the other family that would have rejected a      *)
+(* scenario is printed as OTHER (evidence only).                             *)
 EXTENDS WsSessionMon, Json, IOUtils, TLC
 
 Trace == ndJsonDeserialize(IOEnv.TRACE)
+
+FocusFromEnv == (IF IOEnv.FOCUS_C08 = "1" THEN {"C08"} ELSE {})
+           \cup (IF IOEnv.FOCUS_C17 = "1" THEN {"C17"} ELSE {})
 
 VARIABLES l, m, skip
 
@@ -20,6 +26,7 @@ TraceNext ==
      ELSE /\ m' = MonStep(m, e)
           /\ skip' = (m'.bad # "")
           /\ (m'.bad # "" => PrintT(<<"BAD", e.sid, e.i, m'.bad>>))
+          /\ (m'.other # m.other => PrintT(<<"OTHER", e.sid, e.i, m'.other>>))
 
 TraceSpec == TraceInit /\ [][TraceNext]_<<l, m, skip>>
 
